@@ -22,6 +22,13 @@
 (*                         socket wait of the same coroutine, or a readiness    *)
 (*                         event of a socket it no longer waits on - ends the   *)
 (*                         sleep early (a seeded change, seeded/C14)            *)
+(*  "eintr_ends_wait"      a plain-thread caller's wait is a poll of the event  *)
+(*                         loop's selector; a signal with a handler interrupts  *)
+(*                         it (epoll_wait is never restarted, mio does not      *)
+(*                         retry): the error leaves the wait loop, sleep /      *)
+(*                         usleep / nanosleep report success and                *)
+(*                         pthread_cond_timedwait ETIMEDOUT long before the     *)
+(*                         time (a seeded change, seeded/C14-2)                 *)
 EXTENDS Naturals, Integers, Sequences, TLC
 
 CONSTANTS MaxT, Slice, Deviations
@@ -72,11 +79,12 @@ Wait(j) ==
 
 \* the parked coroutine is resumed e ms into a wait that should last longer (stale syscall-timer entry of
 \* an earlier socket wait, readiness event of a descriptor it no longer waits on): the wait loop reads the
-\* clock and parks again for what is left
+\* clock and parks again for what is left. The same step is a plain-thread caller whose poll is interrupted
+\* by a signal e ms into the wait: the interruption counts as "nothing ready" and the wait goes on
 EarlyWake(e) ==
   /\ pc = "wait" /\ call \in {"sleep", "cond"} /\ sp < MaxSpurious /\ e < left
   /\ sp' = sp + 1 /\ now' = now + e /\ left' = left - e
-  /\ IF call = "sleep" /\ "sleep_no_recheck" \in Deviations
+  /\ IF (call = "sleep" /\ "sleep_no_recheck" \in Deviations) \/ "eintr_ends_wait" \in Deviations
      THEN pc' = "done" /\ ret' = "timeout"
      ELSE UNCHANGED <<pc, ret>>
   /\ UNCHANGED <<call, T, valid, x, probes, dead>>
